@@ -41,6 +41,19 @@ Theorem C17_sender_nak_fails : forall done b rest answer more, answer <> secsi_A
 Proof. exact sender_nak_fails. Qed.
 Print Assumptions C17_sender_nak_fails.
 
+(* KNOWN FINDING C17-length-byte: the statement's "all positions of a corrupted byte" includes the length byte.  A length byte
+   that was RAISED in transit makes the receiver wait for bytes that are not coming: it answers EOT and then nothing - no NAK
+   (the library has no T1/T2 timers); whatever the sender transmits next is swallowed into the pending block. *)
+Theorem C17_length_byte_refuted :
+  let h := {| s_system := 7; s_device := 1; s_stream := 1; s_function := 1; s_block := 1; s_r := false; s_w := true; s_e := true |} in
+  block_ok h [1; 2; 3] /\
+  exists need acc, srx_bytes RIdle (secsi_ENQ :: replace_nth 0 18 (enc_block h [1; 2; 3])) = (RCollect need acc, [SentEOT]) /\ (0 < need)%nat.
+Proof.
+  split; [repeat split; cbn; try lia; repeat constructor|].
+  eexists. eexists. split; [vm_compute; reflexivity|]. cbn. lia.
+Qed.
+Print Assumptions C17_length_byte_refuted.
+
 Example C17_example :
   let h := {| s_system := 7; s_device := 1; s_stream := 1; s_function := 1; s_block := 1; s_r := false; s_w := true; s_e := true |} in
   block_ok h [1; 2; 3] /\ length (enc_block h [1; 2; 3]) = 16%nat.
